@@ -107,16 +107,16 @@ pub fn decode_dq(sh: Sh, chars: &[char], mut i: usize) -> Result<(String, usize)
                 _ => out.push(c),
             },
             Sh::Pwsh => match c {
-                '"' | '\u{201c}' | '\u{201d}' | '\u{201e}' => {
+                '"' => {
                     // a doubled quote is an escaped quote
-                    if c == '"' && chars.get(i + 1) == Some(&'"') {
+                    if chars.get(i + 1) == Some(&'"') {
                         out.push('"');
                         i += 2;
                         continue;
                     }
-                    if c != '"' {
-                        return Err(format!("typographic double quote U+{:04X} closes a PowerShell string", c as u32));
-                    }
+                    // (the PowerShell language specification also lists U+201C/U+201D/U+201E as
+                    // double-quote characters; that cannot be confirmed by execution here, so the
+                    // decoder does not judge them: see DESIGN.md, unverifiable suspects)
                     return Ok((out, i + 1));
                 }
                 '`' => {
